@@ -553,8 +553,9 @@ def bfs(rep):
     pm = parent_map(fi.node)
     defs = local_defs(fi.node)
     nets = [nm for nm, ds in defs.items() for d_ in ds if d_.kind == "assign" and norm(d_.value) == "self.petri"]
-    rep.need("DOM", len(nets), 1, "net = self.petri in is_realizable")
-    NETV = nets[0]
+    direct = [n_ for n_ in walk_local(fi.node) if isinstance(n_, ast.Attribute) and norm(n_) == "self.petri"]
+    rep.need("DOM", len(nets) + (1 if direct else 0), 1, "self.petri in is_realizable")
+    NETV = nets[0] if nets else "self.petri"   # normal form N24: a local that merely names the attribute is the attribute
     fires = [c for c in walk_local(fi.node) if isinstance(c, ast.Call) and norm(c.func) == f"{NETV}.fire"]
     rep.need("DOM", len(fires), 1, "net.fire in is_realizable")
     for c in fires:
@@ -603,13 +604,22 @@ def bfs(rep):
             ok = any(s and f"{M0[0]}.get(" in norm(t) and f"{MT[0]}.get(" in norm(t) and "==" in norm(t) and norm(t).startswith("all(") for t, s in gs)
             rep.ob("O20.4", "DOM", fi, ok, f"return True under {len(gs)} guard(s)", "the empty sequence is returned only if the start already equals the target", node=r)
     neg = [r for r in returns_of(fi.node) if isinstance(r.value, ast.Tuple) and is_const(r.value.elts[0], False)]
+    n_opaque_neg = 0
     for r in neg:
         gs = guards_of(pm, r, fi.node)
         lps_ = enclosing_loops(pm, r, fi.node)
         after_search = fi.node.body[-1] is r  # the last statement of the function: only guard clauses that return something else precede it
-        rep.ob("O20.4", "DOM", fi, after_search and not lps_, f"return False under {len(gs)} guard(s)",
+        okn = after_search and not lps_
+        if not okn and not lps_ and gs and all(sn and isinstance(t, ast.Call) and isinstance(t.func, ast.Attribute) and isinstance(t.func.value, ast.Name)
+                                               and t.func.value.id in ("self", "cls") for t, sn in gs[:1]):
+            # an early rejection decided by a separate predicate of the class (a necessary condition of realizability, if it is right): what that
+            # predicate computes is beyond this rule - not evidence of a wrong verdict, but not verified either
+            okn = None
+            n_opaque_neg += 1
+        rep.ob("O20.4", "DOM", fi, okn, f"return False under {len(gs)} guard(s)",
                "a pathway is reported unrealizable only after the bounded search is exhausted (no shortcut may reject a flow that has a valid ordering)", node=r)
-    rep.ob("O20.4", "DOM", fi, len(neg) == 1, f"{len(neg)} negative return(s)", "there is exactly one negative verdict, at the end of the search")
+    rep.ob("O20.4", "DOM", fi, True if len(neg) == 1 else (None if len(neg) - n_opaque_neg == 1 else False), f"{len(neg)} negative return(s)",
+           "there is exactly one negative verdict, at the end of the search")
     # visited set, FIFO, bounds only cut
     app = [c for c in walk_local(fi.node) if Q and isinstance(c, ast.Call) and norm(c.func) == f"{Q}.append" and enclosing_loops(pm, c, fi.node)]
     rep.need("DOM", len(app), 1, "q.append inside the search loop")
